@@ -28,6 +28,7 @@ import (
 	"path/filepath"
 	"regexp"
 	"strings"
+	"unicode"
 
 	"github.com/snapcore/snapd/dirs"
 	"github.com/snapcore/snapd/logger"
@@ -103,9 +104,35 @@ var isValidDesktopFileLine = regexp.MustCompile(strings.Join([]string{
 	"^TargetEnvironment=",
 }, "|")).Match
 
+// quoteExecArg renders one argument of an Exec= value following the Desktop
+// Entry specification ("The Exec key"): an argument that contains a reserved
+// character is enclosed in double quotes, with \" \` \$ and \\ escaped, and
+// a literal percent sign is always written as %%. Arguments without reserved
+// characters are returned unchanged.
+func quoteExecArg(arg string) string {
+	arg = strings.Replace(arg, "%", "%%", -1)
+	const reserved = " \t\n\"'\\><~|&;$*?#()`"
+	if !strings.ContainsAny(arg, reserved) {
+		return arg
+	}
+	var sb strings.Builder
+	sb.WriteByte('"')
+	for i := 0; i < len(arg); i++ {
+		switch arg[i] {
+		case '"', '`', '$', '\\':
+			sb.WriteByte('\\')
+		}
+		sb.WriteByte(arg[i])
+	}
+	sb.WriteByte('"')
+	return sb.String()
+}
+
 // rewriteExecLine rewrites a "Exec=" line to use the wrapper path for snap application.
 func rewriteExecLine(s *snap.Info, desktopFile, line string) (string, error) {
-	env := fmt.Sprintf("env BAMF_DESKTOP_FILE_HINT=%s ", desktopFile)
+	// the name of the desktop file comes from the snap (meta/gui/*.desktop)
+	// and must not be able to add words to the command line
+	env := fmt.Sprintf("env %s ", quoteExecArg("BAMF_DESKTOP_FILE_HINT="+desktopFile))
 
 	cmd := strings.SplitN(line, "=", 2)[1]
 	for _, app := range s.Apps {
@@ -257,6 +284,11 @@ func deriveDesktopFilesContent(s *snap.Info) (map[string]osutil.FileState, error
 	content := make(map[string]osutil.FileState)
 	for _, df := range desktopFiles {
 		base := filepath.Base(df)
+		if strings.IndexFunc(base, unicode.IsControl) >= 0 {
+			// a line break in the name would add lines to the generated file
+			logger.Noticef("ignoring desktop file with control characters in its name: %q", base)
+			continue
+		}
 		fileContent, err := os.ReadFile(df)
 		if err != nil {
 			return nil, err
